@@ -1028,12 +1028,42 @@ struct FailingReader {
     data: Vec<u8>,
     pos: usize,
     fail_at: Option<usize>,
+    /// die with a panic instead of returning an error
+    panics: bool,
+}
+
+/// A value whose `Serialize` impl panics when it reaches element `at` (a dying producer body).
+#[derive(Clone)]
+struct PanicSeq {
+    data: Vec<u8>,
+    at: Option<usize>,
+}
+impl Serialize for PanicSeq {
+    fn serialize<S: serde::Serializer>(&self, ser: S) -> Result<S::Ok, S::Error> {
+        use serde::ser::SerializeSeq;
+        let mut seq = ser.serialize_seq(Some(self.data.len()))?;
+        for (i, b) in self.data.iter().enumerate() {
+            if self.at == Some(i) {
+                panic!("serialize impl panics");
+            }
+            seq.serialize_element(&(*b as u16 + 300))?;
+        }
+        seq.end()
+    }
+}
+fn panic_seq_bytes(data: &[u8]) -> Vec<u8> {
+    let mut v = vec![];
+    beve::to_writer_streaming(&mut v, &PanicSeq { data: data.to_vec(), at: None }).expect("encode");
+    v
 }
 impl Read for FailingReader {
     fn read(&mut self, out: &mut [u8]) -> std::io::Result<usize> {
         let limit = self.fail_at.unwrap_or(self.data.len()).min(self.data.len());
         if self.pos >= limit {
             if self.fail_at.is_some() {
+                if self.panics {
+                    panic!("source panics");
+                }
                 return Err(std::io::Error::other("source failed"));
             }
             return Ok(0);
@@ -1048,7 +1078,11 @@ impl Read for FailingReader {
 
 #[derive(Clone, Debug)]
 struct Real {
-    writer: bool,
+    /// 0 = with_reader_stream, 1 = with_writer_stream, 2 = with_value_stream (a Serialize impl; `payload` is
+    /// then the data and `fail` an element index)
+    kind: u8,
+    /// the producer body panics at `fail` instead of returning an error
+    panics: bool,
     chunk: usize,
     fail: Option<usize>,
     depth: usize,
@@ -1057,8 +1091,10 @@ struct Real {
 
 fn start_real(r: &Real, zstd: bool) -> SocketAddr {
     let opts = StreamOpts { chunk_bytes: r.chunk, compression: if zstd { Compression::Zstd } else { Compression::None }, zstd_level: 3, session_depth: r.depth };
-    let (payload, fail) = (r.payload.clone(), r.fail);
-    let router = if r.writer {
+    let (payload, fail, panics) = (r.payload.clone(), r.fail, r.panics);
+    let router = if r.kind == 2 {
+        Router::new().with_value_stream(move |res: &str| (res == "blob").then(|| PanicSeq { data: payload.clone(), at: fail }), opts)
+    } else if r.kind == 1 {
         Router::new().with_writer_stream(
             BodyFormat::RawBinary,
             move |res: &str| {
@@ -1069,6 +1105,9 @@ fn start_real(r: &Real, zstd: bool) -> SocketAddr {
                         for piece in payload[..n].chunks(5) {
                             w.write_all(piece)?;
                         }
+                        if fail.is_some() && panics {
+                            panic!("writer body panics");
+                        }
                         if fail.is_some() { Err(std::io::Error::other("writer aborted")) } else { Ok(()) }
                     }
                 })
@@ -1076,7 +1115,7 @@ fn start_real(r: &Real, zstd: bool) -> SocketAddr {
             opts,
         )
     } else {
-        Router::new().with_reader_stream(move |res: &str| (res == "blob").then(|| FailingReader { data: payload.clone(), pos: 0, fail_at: fail }), opts)
+        Router::new().with_reader_stream(move |res: &str| (res == "blob").then(|| FailingReader { data: payload.clone(), pos: 0, fail_at: fail, panics }), opts)
     };
     let server = Server::new(router);
     let l = server.listen("127.0.0.1:0").expect("bind");
@@ -1090,6 +1129,13 @@ fn start_real(r: &Real, zstd: bool) -> SocketAddr {
 /// What the client of a real server sees (C09's sequencing: full chunks, one-chunk lookahead, a
 /// failure replaces the chunk that would have been delivered when it is noticed).
 fn real_wire(r: &Real, zstd: bool) -> (Vec<Resp>, Dec) {
+    if r.kind == 2 {
+        // what is streamed is the BEVE encoding; where a panicking element falls inside it is the
+        // encoder's business (a failing script whatever was delivered)
+        let enc = panic_seq_bytes(&r.payload);
+        let r2 = Real { kind: 0, payload: enc, fail: r.fail.map(|_| 0), ..r.clone() };
+        return real_wire(&r2, zstd);
+    }
     if zstd {
         // the compressed bytes are the encoder's business; the script states only whether the stream is whole
         return match r.fail {
@@ -1122,9 +1168,9 @@ impl Ctx {
         let op = format!(
             "real {} {} {} {} {} {} {}",
             idx,
-            if r.writer { "writer" } else { "reader" },
+            ["reader", "writer", "value"][r.kind as usize],
             r.chunk,
-            r.fail.map(|n| n.to_string()).unwrap_or("-".into()),
+            r.fail.map(|n| format!("{}{}", if r.panics { "p" } else { "" }, n)).unwrap_or("-".into()),
             r.depth,
             hex(&r.payload),
             sc.words()
@@ -1822,13 +1868,27 @@ fn gen_and_run(args: &Args, out: &mut Out, ctx: &mut Ctx) {
                 if zstd && !thorough && f.is_some() && p != Puller::File && p != Puller::FileAsync {
                     continue;
                 }
-                let r = Real { writer: rng.chance(1, 2), chunk, fail: f, depth: rng.below(5) as usize, payload: payload.clone() };
+                // the producer body returns Err — or dies with a panic (reader's read, writer body, a Serialize impl)
+                let modes: Vec<(u8, bool)> = if f.is_some() {
+                    let mut m = vec![(rng.below(2) as u8, false), (rng.below(2) as u8, true)];
+                    if !zstd && (thorough || p == Puller::File || p == Puller::FileAsync) {
+                        m.push((2, true));
+                    }
+                    m
+                } else {
+                    vec![(rng.below(3) as u8, false)]
+                };
+                for (kind, panics) in modes {
+                let fk = if kind == 2 { f.map(|n| n / 2) } else { f };
+                let r = Real { kind, panics, chunk, fail: fk, depth: rng.below(5) as usize, payload: if kind == 2 { payload[..payload.len() / 2].to_vec() } else { payload.clone() } };
                 let (wire, dec) = real_wire(&r, zstd);
-                let mut sc = Script { puller: p, zstd, beve: false, open: Open::Ok, verify_ok: true, trailer: if p.has_trailer() { 8 } else { 0 }, dest: *rng.pick(&[Dest::None, Dest::Old]), dec, wire, wfault: None, sync_fault: false, ws: false, verify_panics: false };
+                let mut sc = Script { puller: p, zstd, beve: kind == 2, open: Open::Ok, verify_ok: true, trailer: if p.has_trailer() { 8 } else { 0 }, dest: *rng.pick(&[Dest::None, Dest::Old]), dec, wire, wfault: None, sync_fault: false, ws: false, verify_panics: false };
                 if p.verifies() && f.is_none() && rng.chance(1, 3) {
                     sc.verify_ok = false;
                 }
+                out.count(&format!("real.producer.{}.{}", ["reader", "writer", "value"][kind as usize], if fk.is_none() { "completes" } else if panics { "panics" } else { "returns-err" }));
                 ctx.exec_real(out, &next("r"), &r, &sc);
+                }
             }
         }
     }
@@ -2056,7 +2116,7 @@ fn replay(ops: Vec<String>, out: &mut Out, ctx: &mut Ctx) {
             "real" => {
                 if w.len() > 7 {
                     if let Some((sc, _)) = Script::parse(&w[7..]) {
-                        let r = Real { writer: w[2] == "writer", chunk: w[3].parse().unwrap_or(16), fail: w[4].parse().ok(), depth: w[5].parse().unwrap_or(4), payload: unhex(w[6]).unwrap_or_default() };
+                        let r = Real { kind: match w[2] { "writer" => 1, "value" => 2, _ => 0 }, panics: w[4].starts_with('p'), chunk: w[3].parse().unwrap_or(16), fail: w[4].trim_start_matches('p').parse().ok(), depth: w[5].parse().unwrap_or(4), payload: unhex(w[6]).unwrap_or_default() };
                         ctx.exec_real(out, &idx, &r, &sc);
                     }
                 }
